@@ -22,7 +22,7 @@ const (
 func init() {
 	register(Property{ID: "C21", Level: "other", Run: runC21,
 		Technique: "static analysis: origin classification of the exec argv / environment / completion value on go/ssa (def-use, must-pass-through, must-follow) in internal/externalcmd, for the unix and the windows sibling",
-		Text:      "Decides, in internal/externalcmd for linux/amd64 and windows/amd64: (1) shellquote.Split is applied to the raw command template (the cmdstr parameter, which Cmd.run fills with c.Cmdstr), never to an expanded string; (2) the argv of every exec.Command is element 0 / elements 1.. of that split result after a full-range loop replaced every element i by expandEnv(element i, c.Env) - so a value lands inside exactly one argument (the windows cmd.exe raw-command-line branch is a tabled exception); (3) expandEnv returns os.Expand(s, f) where f returns the hook value env[name] unchanged when present and os.Getenv otherwise; (4) Cmd.run appends key+\"=\"+val for every c.Env entry, unconditionally, to the environment it passes on and runOSSpecific stores exactly that slice in exec.Cmd.Env before Start; (5) exit status: every ExitCode() result in the module is used, the waiter returns it whenever Wait() failed with an *exec.ExitError, that value is what is sent on the completion channel that runOSSpecific selects on, nil is returned only under code == 0, the non-zero branch returns fmt.Errorf carrying the code, and Cmd.run hands every non-nil, non-terminated error to OnExit; (6) argv[0]/argv[1:] are taken only after a length test. Not decided: os.Expand / shellquote / os/exec internals, what each hook puts into Env (internal/hooks), delivery of OnExit to a log line.",
+		Text:      "Decides, in internal/externalcmd for linux/amd64 and windows/amd64: (1) shellquote.Split is applied to the raw command template (the cmdstr parameter, which Cmd.run fills with c.Cmdstr), never to an expanded string; (2) the argv of every exec.Command is element 0 / elements 1.. of that split result after a full-range loop replaced every element i by expandEnv(element i, c.Env) - so a value lands inside exactly one argument (the windows cmd.exe raw-command-line branch is a tabled exception); (3) expandEnv returns os.Expand(s, f) where f returns the hook value env[name] unchanged when present and os.Getenv otherwise; (4) Cmd.run appends key+\"=\"+val for every c.Env entry, unconditionally, to the environment it passes on and runOSSpecific stores exactly that slice in exec.Cmd.Env before Start; (5) exit status: every ExitCode() result in the module is used, the waiter returns it whenever Wait() failed with an *exec.ExitError, that value is what is sent on the completion channel that runOSSpecific selects on, nil is returned only under code == 0, the non-zero branch returns fmt.Errorf carrying the code, and Cmd.run hands every non-nil, non-terminated error to OnExit; (6) argv[0]/argv[1:] are taken only after a length test; (7) module-wide: every write of a hook value into an externalcmd.Environment map goes to a map created for that one invocation (a map literal / make in the writer, or the result of a module function whose every return is such a fresh map, followed through locals, captured variables, parameter structs and call sites), and every module function that returns an Environment returns a fresh map - a cached / stored / captured map would let the next hook invocation overwrite the values before the command, which keeps a reference to Env, reads them. Not decided: os.Expand / shellquote / os/exec internals, which variables each hook puts into Env (internal/hooks), one map reused for several commands inside a single invocation, delivery of OnExit to a log line.",
 		Note:      "trusted: os.Expand, shellquote.Split, os/exec, go/ssa construction; the expand loop is recognised as the range-index idiom the repository uses (any other idiom is reported, not guessed)"})
 	addMutants(
 		Mutant{"C21", "expand-before-split", "internal/externalcmd/cmd_os.go",
@@ -53,6 +53,12 @@ func init() {
 			"return fmt.Errorf(\"command exited with code %d\", c)", "return fmt.Errorf(\"command failed\")", "C21.exit_status.error_carries_code"},
 		Mutant{"C21", "onexit-dropped-without-restart", "internal/externalcmd/cmd.go",
 			"\t\t\tif err != nil {\n\t\t\t\tc.OnExit(err)\n\t\t\t}\n\t\t\treturn", "\t\t\treturn", "C21.exit_status.on_exit"},
+		Mutant{"C21", "path-env-cached", "internal/core/path.go",
+			"	return env\n}\n\nfunc (pa *path) shouldClose() bool {",
+			"	if cached, ok := externalCmdEnvCache.Load(pa.name); ok {\n		return cached.(externalcmd.Environment)\n	}\n	externalCmdEnvCache.Store(pa.name, env)\n	return env\n}\n\nvar externalCmdEnvCache sync.Map\n\nfunc (pa *path) shouldClose() bool {", "C21.env_private"},
+		Mutant{"C21", "segment-hook-env-hoisted", "internal/core/path.go",
+			"func (pa *path) startRecording() {\n	pa.recorder = &recorder.Recorder{\n		PathFormat:      pa.conf.RecordPath,\n		Format:          pa.conf.RecordFormat,\n		PartDuration:    time.Duration(pa.conf.RecordPartDuration),\n		MaxPartSize:     pa.conf.RecordMaxPartSize,\n		SegmentDuration: time.Duration(pa.conf.RecordSegmentDuration),\n		PathName:        pa.name,\n		Stream:          pa.stream,\n		OnSegmentCreate: func(segmentPath string) {\n			if pa.conf.RunOnRecordSegmentCreate != \"\" {\n				env := pa.ExternalCmdEnv()\n",
+			"func (pa *path) startRecording() {\n	recEnv := pa.ExternalCmdEnv()\n	pa.recorder = &recorder.Recorder{\n		PathFormat:      pa.conf.RecordPath,\n		Format:          pa.conf.RecordFormat,\n		PartDuration:    time.Duration(pa.conf.RecordPartDuration),\n		MaxPartSize:     pa.conf.RecordMaxPartSize,\n		SegmentDuration: time.Duration(pa.conf.RecordSegmentDuration),\n		PathName:        pa.name,\n		Stream:          pa.stream,\n		OnSegmentCreate: func(segmentPath string) {\n			if pa.conf.RunOnRecordSegmentCreate != \"\" {\n				env := recEnv\n", "C21.env_private"},
 		Mutant{"C21", "windows-done-channel-gets-zero", "internal/externalcmd/cmd_os_windows.go",
 			"\t\t\treturn ee.ExitCode()\n\t\t}()\n", "\t\t\treturn ee.ExitCode()\n\t\t}() & 0\n", "C21.exit_status.sent@windows"},
 	)
@@ -63,12 +69,14 @@ func runC21(c *Ctx) {
 	if p == nil {
 		return
 	}
+	defer dumpObls(c)
 	c.Explain = "E5/E1/E4 in internal/externalcmd. split_raw: shellquote.Split argument is the raw template parameter and Cmd.run passes c.Cmdstr. " +
 		"argv_expanded: exec.Command(parts[0], parts[1:]...) with parts = Split result, reached only through the exit edge of a range-index loop over the same slice whose single-block body stores expandEnv(parts[i], c.Env) to parts[i]; no other store into parts; windows cmd.exe branch tabled (documented raw command line). " +
 		"expand_env: expandEnv = os.Expand(s, f), f returns env[name] when present else os.Getenv(name), env bound to the parameter. " +
 		"env_verbatim: Cmd.run appends key+\"=\"+val per c.Env entry in an unconditional range body and passes the result; runOSSpecific stores parameter env to Cmd.Env of the command it starts, before Start. " +
 		"exit_status.{result_used,waiter,sent,nil_only_on_zero,error_carries_code,on_exit}: see property text. argv0_len: constant index/slice of the split result needs a length test. " +
-		"NOT decided: library internals (os.Expand, shellquote, os/exec), the content hooks put into Env, what OnExit does with the error."
+		"env_private (prop_r3_c21.go): every MapUpdate on an externalcmd.Environment writes into a map whose origins (through locals, captured cells, struct literals, parameters -> call-site arguments, phis, module callees incl. every implementation of an invoked module interface method) are all: map literal/make, maps.Clone, nil; a field of a longer-lived object, a package variable, a container element, a variable captured by an escaping closure, or an unresolved value is reported; every module function returning Environment returns only such fresh maps. " +
+		"NOT decided: library internals (os.Expand, shellquote, os/exec), which variables hooks put into Env, one map reused by several commands of one invocation, what OnExit does with the error."
 	c.Assume = []string{
 		"os.Expand substitutes the mapping result verbatim; shellquote.Split does not depend on later element values; os/exec passes argv and Env unchanged to the kernel",
 		"the windows cmd.exe branch passes a raw command line by design (tabled exception, not checked for splitting)",
@@ -82,6 +90,9 @@ func runC21(c *Ctx) {
 	// ---- shared (cmd.go): expandEnv, Cmd.run
 	c21ExpandEnv(c, p)
 	c21Run(c, p)
+
+	// ---- the environment map belongs to one hook invocation (prop_r3_c21.go)
+	c21EnvPrivate(c, p)
 
 	// ---- every ExitCode() result in the module is used
 	n := 0
